@@ -4,14 +4,32 @@ import DelbModel.Model.Gc
 The threshold values are hypotheses here; `Props/C04.lean` discharges them from `c04_thresholds`. -/
 namespace Delb.Gc
 
-/-- the derived constants, given the generated lists -/
+/-- the minimum of a non-empty list whose entries all equal `c` is `c` -/
+theorem foldl_min_const (c : Nat) (l : List Nat) (acc : Nat) (hacc : acc = c) (h : ∀ x ∈ l, x = c) :
+    l.foldl min acc = c := by
+  induction l generalizing acc with
+  | nil => simpa using hacc
+  | cons x xs ih =>
+    simp only [List.foldl_cons]
+    apply ih
+    · have := h x (by simp); omega
+    · intro y hy; exact h y (by simp [hy])
+
+theorem base_of_all (c : Nat) (l : List Nat) (hne : l ≠ []) (h : ∀ x ∈ l, x = c) :
+    l.foldl min (l.headD 0) = c := by
+  apply foldl_min_const c l _ _ h
+  cases l with
+  | nil => exact absurd rfl hne
+  | cons x xs => simpa using h x (by simp)
+
+/-- the derived constants, given that every comparison of a kind uses the same base -/
 theorem thresholds_of_lists
-    (hw : Gen.gcWrapperBases = [4]) (hd : Gen.gcDocumentIdles = [4])
-    (ha : Gen.gcAppendedBases = [3, 3, 3]) (hh : Gen.gcHeadBases = [3, 3]) :
-    Gen.gcWrapperBase = 4 ∧ Gen.gcDocumentIdle = 4 ∧ Gen.gcAppendedBase = 3 ∧ Gen.gcHeadBase = 3 := by
-  unfold Gen.gcWrapperBase Gen.gcDocumentIdle Gen.gcAppendedBase Gen.gcHeadBase
-  rw [hw, hd, ha, hh]
-  simp
+    (hw : Gen.gcWrapperBases ≠ [] ∧ ∀ x ∈ Gen.gcWrapperBases, x = 4)
+    (hd : Gen.gcDocumentIdles ≠ [] ∧ ∀ x ∈ Gen.gcDocumentIdles, x = 4)
+    (ha : Gen.gcAppendedBases ≠ [] ∧ ∀ x ∈ Gen.gcAppendedBases, x = 3)
+    (hh : Gen.gcHeadBases ≠ [] ∧ ∀ x ∈ Gen.gcHeadBases, x = 3) :
+    Gen.gcWrapperBase = 4 ∧ Gen.gcDocumentIdle = 4 ∧ Gen.gcAppendedBase = 3 ∧ Gen.gcHeadBase = 3 :=
+  ⟨base_of_all 4 _ hw.1 hw.2, base_of_all 4 _ hd.1 hd.2, base_of_all 3 _ ha.1 ha.2, base_of_all 3 _ hh.1 hh.2⟩
 
 theorem chainReferenced_eq (ha : Gen.gcAppendedBase = 3) (l : List TextObj) :
     chainReferenced l = l.any (·.userRefs > 0) := by
